@@ -171,7 +171,7 @@ CHECKS = {
     text="C07_pool_fault_raises, C07_complete_pass_delivers_everything, C07_round_robin_delivers_everything, C07_rust_dead_worker_is_reported, C07_fstep_eq_step, C07_rust_original_truncates / _repaired_raises. "
          "Shards are deleted / emptied / overwritten with garbage / truncated at the first, middle and last position; every interface x shuffle on/off x file_parallelism runs under a 60 s alarm and must raise; "
          "a damage counts only if the format library itself (flatbuffers / numpy / TFRecord reader, independent of sedpack's iteration code) rejects the file. The lazy pool with a failing loader runs under the deterministic scheduler."
-         " Rust worker panics: the cargo harness runs parallel_map with a function panicking on one item (every position x 1/2/3/8 threads); the pass must raise with exactly the results before that item; the channel operations recorded by the SEDPACK_VERIF hook, plus the consumer's failing next(), are replayed on M-PMAP's fault-aware step (pmapfault endpoint) and must leave the model failed with the same output (C07_rust_dead_worker_is_reported).",
+         " Rust worker panics: the cargo harness runs parallel_map with a function panicking on one item (every position x 1/2/3/8 threads); the pass must raise with exactly the results before that item; the channel operations recorded by the SEDPACK_VERIF hook, plus the consumer's failing next(), are replayed on M-PMAP's fault-aware step (pmapfault endpoint) and must leave the model failed with the same output (C07_rust_dead_worker_is_reported)."
          " C07Src.lean re-checks on the statement order extracted from the current source that no iteration interface contains an exception handler at all, that the pool's consumer re-raises (after the reset) and that the worker forwards what it caught; damage kinds include zero-filled and 0xFF-filled files, with the weaker demand (every example of the undamaged shards) when the format library reads the damaged file without complaint.",
     note="Executor / asyncio / tf.data error propagation and Rust panic unwinding are specified externals; bounded time is a watchdog at run time and a step bound (mu) in the model.",
     ref="DESIGN.md §5 C07"),
